@@ -230,3 +230,43 @@ func c01KindConst(p *Prog, name string) int64 {
 	}
 	return -1
 }
+
+// C01/R6 operator-gluing hazards do not depend on output options.
+//
+// printSpaceBeforeOperator decides whether two adjacent operator tokens need a space between them:
+// `+ +x`, `- --x`, and the two sequences that would otherwise form an HTML-like comment delimiter,
+// `x-- > y` and `x < !--y`. `<!--` and `-->` open single-line comments in every classic script and
+// CommonJS module, on every platform (ECMA-262 Annex B.1.1), not only inside a <script> element. The
+// decision is a function of the two operators and of the bytes already printed; making any of it
+// conditional on an output option drops a needed space under that option.
+func c01OperatorHazardsUnconditional(p *Prog) *RuleResult {
+	r := NewRule("C01/R6 operator-gluing-unconditional", "the space that keeps adjacent operators from forming another token (`++`, `--`, `<!--`, `-->`) is decided from the operators and the printed bytes only, never from an output option")
+	fn := p.FindFunc("js_printer.(*printer).printSpaceBeforeOperator")
+	if !r.Anchor("js_printer.(*printer).printSpaceBeforeOperator", fn != nil) {
+		return r
+	}
+	n := 0
+	eachInstr(fn, func(b *ssa.BasicBlock, in ssa.Instruction) {
+		ifi, ok := in.(*ssa.If)
+		if !ok {
+			return
+		}
+		n++
+		r.Instances++
+		key := fmt.Sprintf("printSpaceBeforeOperator condition #%d", n)
+		opt := ""
+		backSlice(ifi.Cond, func(v ssa.Value) bool {
+			if fa, ok := v.(*ssa.FieldAddr); ok && fieldAddrName(fa) == "options" && namedTypeName(fa.X.Type()) == "js_printer.printer" {
+				opt = p.Pos(ifi.Cond.Pos())
+			}
+			return opt == ""
+		})
+		if opt == "" {
+			r.OK(key, false, "")
+		} else {
+			r.Fail(key, opt, "a token-gluing decision depends on an output option: under that option `x-- > y` / `x < !--y` (or `+ +x`) is printed without the space and the operators fuse into another token (`-->` and `<!--` start comments in every classic script)")
+		}
+	})
+	r.Anchor("conditions of printSpaceBeforeOperator", n >= 4)
+	return r
+}
